@@ -28,6 +28,7 @@ from .specs.type import (
     Type,
     ArrayType,
     StructType,
+    EnumType,
     DynamicArrayType,
     OptionalType,
     StringType,
@@ -106,6 +107,11 @@ def _encode_builtin_double(buffer: _Buffer, type: DoubleType, data: Any) -> None
     buffer.push_bytes(list(v))
 
 
+def _encode_enum(buffer: _Buffer, fcp: FcpV2, type: EnumType, data: Any) -> None:
+    length = fcp.get_enum(type.name).unwrap().get_packed_size()
+    buffer.push_word(data, length)
+
+
 def _encode_str(buffer: _Buffer, fcp: FcpV2, type: StringType, data: Any) -> None:
     _encode_builtin_unsigned(buffer, UnsignedType("u32"), len(data))
     for x in data:
@@ -159,6 +165,8 @@ def _encode(
         _encode_builtin_double(buffer, type, data)
     elif isinstance(type, StringType):
         _encode_str(buffer, fcp, type, data)
+    elif isinstance(type, EnumType):
+        _encode_enum(buffer, fcp, type, data)
     elif isinstance(type, StructType):
         _encode_struct(buffer, fcp, type.name, data)
     elif isinstance(type, ArrayType):
@@ -200,6 +208,11 @@ def _decode_builtin_float(buffer: _Buffer, type: FloatType) -> float:
 
 def _decode_builtin_double(buffer: _Buffer, type: DoubleType) -> float:
     return float(struct.unpack("d", bytearray(buffer.read_bytes(8)))[0])
+
+
+def _decode_enum(buffer: _Buffer, fcp: FcpV2, type: EnumType) -> int:
+    length = fcp.get_enum(type.name).unwrap().get_packed_size()
+    return buffer.read_word(length)
 
 
 def _decode_str(buffer: _Buffer, type: StringType) -> str:
@@ -255,6 +268,8 @@ def _decode(buffer: _Buffer, fcp: FcpV2, type: Type) -> Dict[str, Any]:
         return _decode_builtin_double(buffer, type)
     elif isinstance(type, StringType):
         return _decode_str(buffer, type)
+    elif isinstance(type, EnumType):
+        return _decode_enum(buffer, fcp, type)
     elif isinstance(type, StructType):
         return _decode_struct(buffer, fcp, type.name)
     elif isinstance(type, ArrayType):
